@@ -59,6 +59,19 @@ class Scenario:
             raise ValueError(k)
         self.src = src
         self.probe = aprobe.Probe(src, self.log, mode=cfg.get("cons", "future"))
+        if cfg.get("stop_at"):
+            # the consumer itself stops the source when it sees a given item (a stop between two items of a
+            # fully synchronous pipeline, where the driver cannot get in)
+            probe, log, k = self.probe, self.log, cfg["stop_at"]
+            orig = probe.update
+
+            def update(x, who=None, metadata=None):
+                r = orig(x, who=who, metadata=metadata)
+                if x == k:
+                    log.add("stop")
+                    src.stop()
+                return r
+            probe.update = update
 
     def op(self, c, arg=None):
         loop, log = self.loop, self.log
